@@ -233,6 +233,10 @@ class Den:
         return False, True
       if not self.is_sub(value_class(u), base):
         return False, False
+      if u[0] == "inst":
+        # an instance of a user class deriving from this container: its
+        # contents are not modelled
+        return False, True
       if u[0] in ("list", "set", "frozenset", "tuple"):
         if mode != "elem":
           return False, False
